@@ -6,6 +6,7 @@
 //! threads (thread id = position in the line):
 //!   P:<budget>:<k>x<len>,<k>x<len>,...   publisher with its own `Publication` handle; offers message k (payload(k,len)),
 //!                                        retrying the same message while the result is an error, at most <budget> attempts in all
+//!   B:<budget>:<k>x<len>,...             the same publisher going through Publication::offer_bulk (two buffers cut in the middle)
 //!   E:<op>,<op>,...                      environment (media driver side): L<v> set the publication limit to v (put_ordered),
 //!                                        C<p> zero partition p (set_memory)
 //!   R:<polls>:<fragment limit>           subscriber: an `Image` over the same log (hook H3 `Image::create_for_verif` when the
@@ -64,7 +65,7 @@ enum EnvOp {
 
 #[derive(Clone, Debug)]
 enum ThreadSpec {
-    Publisher { budget: usize, msgs: Vec<(i64, i32)> },
+    Publisher { budget: usize, msgs: Vec<(i64, i32)>, bulk: bool },
     Env { ops: Vec<EnvOp> },
     Reader { polls: usize, limit: i32 },
     Exclusive { budget: usize, msgs: Vec<Item> },
@@ -267,7 +268,7 @@ fn parse_thread(s: &str) -> ThreadSpec {
     let kind = it.next().unwrap();
     let rest = it.next().unwrap_or("");
     match kind {
-        "P" => {
+        "P" | "B" => {
             let mut it2 = rest.splitn(2, ':');
             let budget: usize = it2.next().unwrap().parse().expect("bad int budget");
             let msgs = it2
@@ -282,7 +283,7 @@ fn parse_thread(s: &str) -> ThreadSpec {
                     (k, l)
                 })
                 .collect();
-            ThreadSpec::Publisher { budget, msgs }
+            ThreadSpec::Publisher { budget, msgs, bulk: kind == "B" }
         }
         "E" => {
             let ops = rest
@@ -447,7 +448,7 @@ fn run_case(line: &str) -> String {
     for (t, spec) in c.threads.iter().enumerate() {
         let res = results[t].clone();
         match spec.clone() {
-            ThreadSpec::Publisher { budget, msgs } => {
+            ThreadSpec::Publisher { budget, msgs, bulk } => {
                 // each thread has its own publication handle over the same log memory
                 let publication = SendBox(Publication::new(
                     client.conductor.clone(),
@@ -461,7 +462,7 @@ fn run_case(line: &str) -> String {
                     log.log_buffers.clone(),
                 ));
                 bodies.push(Box::new(move || {
-                    let publication = publication;
+                    let mut publication = publication;
                     let mut budget = budget;
                     for (k, len) in msgs {
                         let bytes = vcommon::payload(k, len.max(0) as usize);
@@ -473,7 +474,16 @@ fn run_case(line: &str) -> String {
                                 return "Done".to_string();
                             }
                             budget -= 1;
-                            let r = publication.0.offer_part(src, 0, len);
+                            // B: the same message through offer_bulk, as two buffers cut in the middle (views of the source)
+                            let r = if bulk {
+                                let h = len / 2;
+                                publication.0.offer_bulk(
+                                    vec![src.view(0, h), src.view(h, len - h)],
+                                    aeron_rs::concurrent::logbuffer::term_appender::default_reserved_value_supplier,
+                                )
+                            } else {
+                                publication.0.offer_part(src, 0, len)
+                            };
                             let ok = r.is_ok();
                             res.lock().unwrap().push(match &r {
                                 Ok(p) => format!("Ok ({})", p),
